@@ -22,6 +22,7 @@ pub fn after_run(w: &mut World, ops: &[Op]) -> Res {
         "C09" => c09(w, ops),
         "C10" => c10(w, ops),
         "C18" => c18(w, ops),
+        "C17" => c17(w),
         _ => Ok(()),
     }
 }
@@ -624,5 +625,20 @@ fn c18(w: &mut World, ops: &[Op]) -> Res {
     // restore the nondeterminism inputs of this world's own configuration
     crate::seam::install(cfg.hash_seed, cfg.order_seed, cfg.cache_ad, cfg.cache_data);
     let _ = (Call::List { ext: String::new(), n: 0 }, WriteOutcome::Stored);
+    Ok(())
+}
+
+// ------------------------------------------------------------------------------------ C17
+
+fn c17(w: &mut World) -> Res {
+    let mut stats = BTreeMap::new();
+    let r = crate::backends::contract_run(&w.cfg.backend, w.cfg.seed, &mut stats);
+    for (k, v) in stats {
+        w.add(&k, v);
+    }
+    w.bump(&format!("probe.backend.{}", w.cfg.backend));
+    if let Err(cv) = r {
+        viol!(w, "adapter-contract", cv.class, "{}", cv.detail);
+    }
     Ok(())
 }
